@@ -136,10 +136,13 @@ static struct schema *find_schema(const char *id)
 	return NULL;
 }
 
+static int decl_comment;	/* set by flag letter A: the declaration itself carries an annotation */
+
 static cfg_flag_t flagletters(const char *s, int *simple)
 {
 	cfg_flag_t f = 0;
 	*simple = 0;
+	decl_comment = 0;
 	for (; *s; s++) switch (*s) {
 	case '-': break;
 	case 'L': f |= CFGF_LIST; break;
@@ -152,6 +155,7 @@ static cfg_flag_t flagletters(const char *s, int *simple)
 	case 'X': f |= CFGF_DROP; break;
 	case 'K': f |= CFGF_KEYSTRVAL; break;
 	case 'S': *simple = 1; break;
+	case 'A': decl_comment = 1; break;
 	default: die("bad flag letter %c", *s);
 	}
 	return f;
@@ -182,6 +186,10 @@ static cfg_opt_t *build_opts(struct schema *sch, char **toks, int ntok, int *pos
 		else if (!strcmp(kind, "sec")) o.type = CFGT_SEC;
 		else die("bad kind %s", kind);
 		o.flags = flagletters(fl, &simple);
+		if (decl_comment) {
+			o.comment = strdup("declared note");
+			if (!o.comment) die("oom");
+		}
 		switch (def[0]) {
 		case '-': break;
 		case 'n': o.def.number = strtol(def + 1, NULL, 0); break;
@@ -257,6 +265,7 @@ static void poison_free_opts(cfg_opt_t *o)
 		if (p->subopts) poison_free_opts(p->subopts);
 		if (p->def.string) { memset((char *)p->def.string, 0xDD, strlen(p->def.string)); free((char *)p->def.string); }
 		if (p->def.parsed) { memset(p->def.parsed, 0xDD, strlen(p->def.parsed)); free(p->def.parsed); }
+		if (p->comment) { memset(p->comment, 0xDD, strlen(p->comment)); free(p->comment); }
 		memset((char *)p->name, 0xDD, strlen(p->name));
 		free((char *)p->name);
 	}
@@ -271,6 +280,7 @@ static void free_opts_plain(cfg_opt_t *o)
 		if (p->subopts) free_opts_plain(p->subopts);
 		free((char *)p->def.string);
 		free(p->def.parsed);
+		free(p->comment);
 		free((char *)p->name);
 	}
 	free(o);
